@@ -88,6 +88,8 @@ def gen(r, tier, i):
     for _ in range(n):
         times.append(t)
         t = t + r.choice([1, 0.5, 0.25, 2, 1.0])
+    if r.random() < 0.2 and len(times) > 2:
+        r.shuffle(times)          # rows reach the emitter out of time order (two streams into one emitter)
     rows = [fill(sh, r) for _ in times]
     lp = list(shape_leaves(sh))
     query = [list(p) for p in r.sample(lp, r.randint(1, len(lp)))]
@@ -156,11 +158,16 @@ def run(spec):
         return v.magnitude if hasattr(v, 'units') else v
 
     def check_series(name_e, name_p, emb, pts, paths, tms):
-        V.check('time_vector', emb.get('time') == tms and pts.get('time') == tms,
-                ('time vector', emb.get('time'), tms))
+        tv = emb.get('time')
+        ascending = tms == sorted(tms)
+        V.check('time_vector', isinstance(tv, list) and pts.get('time') == tv and
+                (tv == tms if ascending else sorted(tv) == sorted(tms)),
+                ('time vector', tv, tms))
+        if not (isinstance(tv, list) and sorted(tv) == sorted(tms)):
+            return
         for p in paths:
             k = ts_key(p, kinds[p], units)
-            exp = [mag(given[t][p]) for t in tms]
+            exp = [mag(given[t][p]) for t in tv]        # aligned one-to-one with the time vector
             got = dig(emb, k)
             V.check(name_e, got is not KeyError and same(got, exp),
                     lambda: ('embedded timeseries', list(k), repr(got), repr(exp)))
@@ -173,7 +180,7 @@ def run(spec):
     try:
         raw = em.get_data()
         des = em.get_data_deserialized()
-        V.check('raw_times', list(raw) == times and list(des) == times, ('raw data times', list(raw), times))
+        V.check('raw_times', sorted(raw) == sorted(times) and list(des) == list(raw), ('raw data times', list(raw), times))
         for t in times:
             V.check('readback', same(leaves_q(des[t]), given[t]),
                     lambda: ('deserialized row differs from emitted row', t, repr(des[t]), repr(given[t])))
@@ -188,7 +195,8 @@ def run(spec):
         V.check('free_functions', same(strip(pts2), strip(pts)) and same(strip(pts3), strip(pts)),
                 'path_timeseries_from_* differ from get_path_timeseries')
         # cell-by-cell read back from both series forms
-        for i, t in enumerate(times):
+        tvec = emb.get('time') if isinstance(emb.get('time'), list) and sorted(emb.get('time')) == sorted(times) else times
+        for i, t in enumerate(tvec):
             for p in kinds:
                 k = ts_key(p, kinds[p], units)
                 a = dig(emb, k)
